@@ -125,6 +125,27 @@ def run(rep, tier="quick", replay=None, evidence_dir=None):
         rep.ob("C12.R1", "emitted attributes are sorted by their table position", oks and not pm.in_loop(srt[0][0]) if srt else False, "", pm.loc())
         # FULLNAMES: the name attribute emits the computed full name
         rep.ob("C12.R1", "the `name` attribute is emitted separately (full name)", "name" in emits, "", pm.loc())
+        # the set of already emitted definitions is keyed by the same full name that is emitted for `name`
+        keyed = []
+        for bi, t in calls_named(pm, "std::collections::HashSet::<T, S, A>::contains", "std::collections::HashSet::<T, S, A>::insert"):
+            if pm.resolve_operand(t["args"][0]) and pm.resolve_operand(t["args"][0])[0] == 2:
+                a = t["args"][1]
+                cr = pm.call_result_of(a)
+                if cr and callee_names(cr[1]["func"])[0].endswith(("Clone::clone", "ToString::to_string", "ToOwned::to_owned", "String::from")) and cr[1]["args"]:
+                    a = cr[1]["args"][0]
+                r = pm.resolve_operand(a) if a.get("k") in ("copy", "move") else None
+                keyed.append(r[0] if r else None)
+        emitted = set()
+        for bi, t in calls_named(pm, "schema::pcf_string"):
+            # the value of the `name` attribute and the text returned for an already defined type
+            r = pm.resolve_operand(t["args"][0]) if t["args"][0].get("k") in ("copy", "move") else None
+            cr = pm.call_result_of(t["args"][0])
+            if cr and callee_names(cr[1]["func"])[0].endswith("Deref::deref") and cr[1]["args"][0].get("k") in ("copy", "move"):
+                r = pm.resolve_operand(cr[1]["args"][0])
+            if r:
+                emitted.add(r[0])
+        rep.ob("C12.R1", "the set of already defined names is keyed by the full name that is emitted", bool(keyed) and all(k is not None and k in emitted for k in keyed),
+               "two types with the same simple name in different namespaces would be merged (the second becomes a dangling reference): dedupe keys %s, emitted name locals %s" % (keyed, sorted(emitted)), pm.loc())
         # PRIMITIVES
         maplen = [(bi, t) for bi, t in pm.calls() if callee_names(t["func"])[0].startswith("serde_json::Map::") and callee_names(t["func"])[0].endswith("::len")
                   and pm.resolve_operand(t["args"][0]) and pm.resolve_operand(t["args"][0])[0] == 1]
